@@ -14,8 +14,9 @@ Full statements (FALSE of the pinned code – the model is faithful and reproduc
 What is proved here (all for values of unbounded size and depth, by structural induction)
 * `yson_roundtrip_partial` – THE TEXT-LEVEL STATEMENT: for every well-formed root value
   satisfying the decidable `YsonSafe`, `roundTrip v = .ok v`.  It is assembled from
-  - `yson_prepass_partial`: the regexp + ten ReplaceAll passes turn `marshal v` into the
-    JSON text `marshalP v` (every wrapper spelled out, no string literal or key touched),
+  - `yson_prepass_partial`: the pre-pass (string literals and keys copied verbatim, the
+    regexp + ten ReplaceAll passes applied to the text between them – /repo 0cf3884e) turns
+    `marshal v` into the JSON text `marshalP v`; no condition on string contents,
   - `yson_json_partial`: the JSON reader (encoding/json into `interface{}`: strconv.Quote
     escapes, number literals, object canonicalisation) maps that text to the tree `toJ v`,
   - `yson_tree_roundtrip_partial`: the tree-level half of `Unmarshal` inverts `toJ`
@@ -28,6 +29,7 @@ Nothing of the text layer is trusted: the trusted base is the model's correspond
 the Go code (differential replay) and the items listed in props.d/C18.py.
 -/
 import YorkieModel.Lemmas.YsonRoundTrip
+import YorkieModel.Model.YsonV0
 namespace Yorkie.Props.C18
 open Yorkie.Yson
 
@@ -47,10 +49,16 @@ theorem yson_tree_roundtrip_partial (v : Yson) (hroot : v.isObj = true ∨ ∃ x
     simp only [YsonSafe, rootAtoms, atoms] at hs
     simp [fromJRoot, Yson.isObj, toJ, parseArray_toJList xs hw hs]
 
-/-- text level, part A: what the pre-pass makes of the marshalled text -/
-theorem yson_prepass_partial (v : Yson) (hw : v.wf = true) (hs : (atoms v).all Atom.safe = true) :
+/-- text level, part A: what the pre-pass (since /repo 0cf3884e) makes of the marshalled text.
+`Atom.prepassOK` only asks that object keys and date payloads contain no quote and no
+backslash: strings, text runs, attributes, tree node types and values are unrestricted. -/
+theorem yson_prepass_partial (v : Yson) (hw : v.wf = true) (hs : (atoms v).all Atom.prepassOK = true) :
     preprocess (marshal v) = marshalP v :=
   (pp_marshal v hw hs).eq
+
+/-- the pre-pass copies every string printed by strconv.Quote verbatim – unconditionally -/
+theorem yson_prepass_string (s rest : Str) : ppOut [] (quote s ++ rest) = quote s ++ ppOut [] rest :=
+  Good.quote s rest
 
 /-- text level, part B: what the JSON reader makes of that text (any amount of fuel above
 the text length, any delimiter after the value) -/
@@ -85,9 +93,10 @@ theorem long_safe_of_small (n : Int) (h : n.natAbs ≤ 2 ^ 53) : (Atom.long n).s
 def sample : Yson :=
   .obj [
     (cp%"a", .arr [.null, .bool true, .int (-7), .long 9007199254740992, .double (.fin cp%"1e+21"),
-                   .str cp%"q\"uo\\te\n(é", .bytes [1, 2, 255], .date cp%"2020-01-02T03:04:05.006+09:00"]),
+                   .str cp%"q\"uo\\te\n(é) Int(5) Text() BinData(", .bytes [1, 2, 255], .date cp%"2020-01-02T03:04:05.006+09:00"]),
     (cp%"c", .counter (.long (-(2 ^ 63)))),
     (cp%"d", .counter (.dedup 3 [0, 1, 2])),
+    (cp%"e)", .counter (.dedup 0 [])),   -- `)` in a key, empty registers: fine since 0cf3884e
     (cp%"o", .obj [(cp%"Type", .str cp%"Counter"), (cp%"value", .obj [])]),
     (cp%"t", .text [⟨cp%"ab", [(cp%"b", cp%"1")]⟩, ⟨cp%"c", []⟩]),
     (cp%"tr", .tree (.mk cp%"doc" [] [] [.mk cp%"p" [] [(cp%"a", cp%"b")] [.mk cp%"text" cp%"hi" [] []]])),
@@ -129,16 +138,25 @@ theorem type_member_silent_witness : wTypeSilent.wf = true ∧ roundTrip wTypeSi
     ∧ (roundTrip wTypeSilent).isOk (.obj [(cp%"o", .bytes [0, 0, 0])]) = true :=
   ⟨by decide, Res.ne_ok_of_isOk_false (by decide), by decide⟩
 
+/-! repaired by /repo commit 0cf3884e: text inside string literals is no longer rewritten.
+The two statements below are about the OLD pre-pass (`V0.preprocess`, Model/YsonV0.lean)
+and keep the repaired defect on record; on the current pre-pass the same values round-trip. -/
+
 def wParen : Yson := .obj [(cp%"a", .str cp%"x)")]
-/-- the pre-pass rewrites `)` inside string literals: `"x)"` silently becomes `"x}"` -/
-theorem prepass_in_string_witness : wParen.wf = true ∧ roundTrip wParen ≠ .ok wParen
-    ∧ (roundTrip wParen).isOk (.obj [(cp%"a", .str cp%"x}")]) = true :=
+/-- OLD pre-pass: `)` inside a string literal silently became `}` -/
+theorem prepass_v0_in_string_witness : wParen.wf = true ∧ V0.roundTrip wParen ≠ .ok wParen
+    ∧ (V0.roundTrip wParen).isOk (.obj [(cp%"a", .str cp%"x}")]) = true :=
   ⟨by decide, Res.ne_ok_of_isOk_false (by decide), by decide⟩
 
 def wWrapperText : Yson := .obj [(cp%"a", .text [⟨cp%"Int(5", []⟩])]
-/-- wrapper-opening text inside a string literal makes the JSON invalid -/
-theorem prepass_wrapper_witness : wWrapperText.wf = true ∧ roundTrip wWrapperText ≠ .ok wWrapperText :=
+/-- OLD pre-pass: wrapper-opening text inside a string literal made the JSON invalid -/
+theorem prepass_v0_wrapper_witness : wWrapperText.wf = true ∧ V0.roundTrip wWrapperText ≠ .ok wWrapperText :=
   ⟨by decide, Res.ne_ok_of_isOk_false (by decide)⟩
+
+/-- …and now both survive -/
+theorem prepass_in_string_fixed : roundTrip wParen = .ok wParen ∧ roundTrip wWrapperText = .ok wWrapperText :=
+  ⟨yson_roundtrip_partial _ (Or.inl rfl) (by decide) (by decide),
+   yson_roundtrip_partial _ (Or.inl rfl) (by decide) (by decide)⟩
 
 def wBell : Yson := .obj [(cp%"a", .str [7])]
 /-- strconv.Quote writes `\a` (also `\v`, `\x..`, `\U........`), which JSON does not know -/
@@ -160,9 +178,11 @@ theorem date_range_witness : wDate.wf = true ∧ roundTrip wDate ≠ .ok wDate :
   ⟨by decide, Res.ne_ok_of_isOk_false (by decide)⟩
 
 def wDedup : Yson := .obj [(cp%"a", .counter (.dedup 0 []))]
-/-- a dedup counter without registers (not producible by FromCRDT) defeats the regexp -/
-theorem dedup_empty_witness : wDedup.wf = true ∧ roundTrip wDedup ≠ .ok wDedup :=
-  ⟨by decide, Res.ne_ok_of_isOk_false (by decide)⟩
+/-- OLD pre-pass: a dedup counter without registers defeated the regexp (`[^"]+`); the new
+head-only regexp handles it -/
+theorem dedup_empty_v0_witness : wDedup.wf = true ∧ V0.roundTrip wDedup ≠ .ok wDedup
+    ∧ roundTrip wDedup = .ok wDedup :=
+  ⟨by decide, Res.ne_ok_of_isOk_false (by decide), yson_roundtrip_partial _ (Or.inl rfl) (by decide) (by decide)⟩
 
 /-! ## round trip 2: FromCRDT ∘ SetYSON (packs.Compact's rebuild-and-compare) -/
 
